@@ -116,11 +116,16 @@ func (vm *VirtualMachine) applyOptions(options []Option) error {
 
 	// Remember the globals as they are: if the new ones are rejected, the VM
 	// keeps the ones it had, instead of failing every later invocation on
-	// the value that one invocation tried to supply
+	// the value that one invocation tried to supply. The same goes for what
+	// the other options set: options that are refused are refused as a whole
 	prevInputGlobals := make(map[string]any, len(vm.inputGlobals))
 	for name, value := range vm.inputGlobals {
 		prevInputGlobals[name] = value
 	}
+	prevIP := vm.ip
+	prevImporter := vm.importer
+	prevOS := vm.os
+	prevConcAllowed := vm.concAllowed
 
 	// Apply options
 	vm.globalsGiven = false
@@ -132,6 +137,10 @@ func (vm *VirtualMachine) applyOptions(options []Option) error {
 	globals, err := object.AsObjects(vm.inputGlobals)
 	if err != nil {
 		vm.inputGlobals = prevInputGlobals
+		vm.ip = prevIP
+		vm.importer = prevImporter
+		vm.os = prevOS
+		vm.concAllowed = prevConcAllowed
 		return fmt.Errorf("invalid global provided: %v", err)
 	}
 	vm.globals = globals
